@@ -227,3 +227,18 @@ Theorem C02_src_dispatch_total :
   exists name, last MatchGen.dispatch (MatchGen.MTrue, ""%string) = (MatchGen.MTrue, name).
 Proof. exact Struct_Matchers_Proofs.dispatch_total. Qed.
 Print Assumptions C02_src_dispatch_total.
+
+(* `anchored_hostname_end` itself (Generated.AnchorGen: the two early returns, the loop condition,
+   the search for the next occurrence, the two label tests as formulas with short-circuit
+   evaluation, the accepting return, the step of `search_from`): interpreted with every index
+   `hostname.as_bytes()[k]` bounds-checked, it is never stuck (no index out of range, no
+   `match_index - 1` at 0) and IS the model's function for all strings and both flags. *)
+Theorem C02_src_anchored_hostname_end_is_model : forall (fh host : str) (w e : bool),
+  Struct_Matchers_Proofs.interp_ahe fh host w e = Some (anchored_hostname_end fh host w e).
+Proof. exact Struct_Matchers_Proofs.interp_ahe_is_model. Qed.
+Print Assumptions C02_src_anchored_hostname_end_is_model.
+
+Theorem C02_src_anchored_hostname_end_no_index_panic : forall (fh host : str) (w e : bool),
+  Struct_Matchers_Proofs.interp_ahe fh host w e <> None.
+Proof. exact Struct_Matchers_Proofs.interp_ahe_never_stuck. Qed.
+Print Assumptions C02_src_anchored_hostname_end_no_index_panic.
